@@ -88,6 +88,9 @@ pub enum Cut {
     ClockAt(u64),
     /// the running flag is cleared at the k-th is_running() call (emulated `stop`)
     StopAt(u64),
+    /// the running flag is cleared before Search::search is entered: the `stop` was processed
+    /// between `go` returning and the search thread starting to run
+    StopBeforeStart,
 }
 
 impl Cut {
@@ -97,6 +100,7 @@ impl Cut {
             Cut::ClockNever => "clock-never".into(),
             Cut::ClockAt(k) => format!("clock-at-{k}"),
             Cut::StopAt(k) => format!("stop-at-{k}"),
+            Cut::StopBeforeStart => "stop-before-start".into(),
         }
     }
     pub fn parse(t: &str) -> Cut {
@@ -104,6 +108,8 @@ impl Cut {
             Cut::ClockAt(k.parse().unwrap_or(1))
         } else if let Some(k) = t.strip_prefix("stop-at-") {
             Cut::StopAt(k.parse().unwrap_or(1))
+        } else if t == "stop-before-start" {
+            Cut::StopBeforeStart
         } else if t == "clock-never" {
             Cut::ClockNever
         } else {
@@ -274,6 +280,10 @@ pub fn run_within(board: &Board, case: &Case, o: &Opts, allowance: std::time::Du
             hooks::clock_virtual(true, 0);
             hooks::stop_at(k);
         }
+        Cut::StopBeforeStart => {
+            hooks::clock_virtual(true, 0);
+            hooks::stop_at(0);
+        }
     }
     hooks::clock_elapsed_after_fire(case.elapsed_ms.unwrap_or(u64::MAX));
     let limits = case.limits.to_engine();
@@ -286,6 +296,9 @@ pub fn run_within(board: &Board, case: &Case, o: &Opts, allowance: std::time::Du
             w.deadline = Some(std::time::Instant::now() + allowance);
             w.overran = false;
             w.case = case.json().compact();
+        }
+        if case.cut == Cut::StopBeforeStart {
+            search.running.store(false, std::sync::atomic::Ordering::Relaxed);
         }
         search.search(&SimpleEvaluator, max_depth);
         search.rce_verif_result()
